@@ -39,15 +39,15 @@ def TIMEOUT(tier):
 def gen_cases(tier, seed):
     thorough = tier == "thorough"
     cases = []
-    n = 20000 if thorough else 500
-    per = 200 if thorough else 25
+    n = 8000 if thorough else 500
+    per = 100 if thorough else 25
     for i in range(n // per):
         cases.append({"kind": "A", "seed": seed * 60013 + i, "n": per})
-    ntrees = 2000 if thorough else 60
-    per_t = 50 if thorough else 6
+    ntrees = 600 if thorough else 60
+    per_t = 10 if thorough else 6
     for i in range(ntrees // per_t):
         for backend in (("mem", "sqlite") if thorough else ("mem",)):
-            cases.append({"kind": "B", "backend": backend, "seed": seed * 70001 + i, "n": per_t, "seeds_per_tree": 10 if thorough else 1})
+            cases.append({"kind": "B", "backend": backend, "seed": seed * 70001 + i, "n": per_t, "seeds_per_tree": 4 if thorough else 1})
     if not thorough:
         cases.append({"kind": "B", "backend": "sqlite", "seed": seed * 70001 + 999, "n": 4, "seeds_per_tree": 1})
     return cases
